@@ -121,6 +121,13 @@ CLAIMED = {
    ref="4/C20", technique="Coq proof (scanner stability + induction over chunks) + exhaustive-cut differential correspondence with a scripted child",
    note="Trusted: Coq kernel; oracle law: frame_end = serde_json value boundary on object replies (tested by every run); reply contents decoded by Python's json as third implementation; "
         "partial: promptness, pipe buffering, reaping and kill-on-drop are OS/tokio behaviour enforced by timeouts."),
+ "C18": dict(
+   text="Coq theorems C18_cover (for ANY hash function and count > 0 every path has exactly one partition id), C18_partition_exact, C18_exactly_one_id (over ids 0..N-1 every file of a glob lies in exactly one selection), "
+        "C18_reject (count 0, id >= count, count without id are rejected), C18_single_file_not_filtered, C18_pure. Correspondence: the real binary over random file sets (2..40 names, nested, non-ASCII, overlapping and single-file globs), "
+        "N in 1..8, every id, flags vs SLT_PARTITION_* vs Buildkite variables, each configuration in its own process (some twice): the files each process runs (engine-side log) equal the Coq model's selection "
+        "(SipHash-1-3 of path bytes ++ 0xFF, mod N), the union over ids is the glob and the selections are disjoint; invalid configurations exit non-zero without contacting the engine.",
+   ref="4/C18", technique="Coq proof (for any hash) + differential correspondence with the real binary in separate processes pinning the hash function",
+   note="Trusted: Coq kernel; SipHash-1-3 model validated by these runs; glob matching of the used patterns re-implemented in the check; stability across builds of the same std is what pins the hash."),
 }
 
 PENDING = "check not built yet in this session (machinery under construction); no claim is made"
